@@ -513,6 +513,35 @@ def opMiner (j : Json) : R Json := do
     ("taint", Json.arr (taint.map fun l => ratJson (taintOf l)).toArray),
     ("names", uni "name"), ("descriptions", uni "description"), ("containers", uni "container")])
 
+def opMediator (j : Json) : R Json := do
+  let ig ← fldBool j "ignoreInvalid"
+  let ops ← (← fldArr j "ops").mapM fun o => do
+    match ← fldStr o "k" with
+    | "addSource" => pure (MOp.addSource (← fldStr o "uri"))
+    | "setSource" => pure (MOp.setSource (← fldStr o "uri"))
+    | "record" => do
+      let evs ← (← fldArr o "events").mapM fun e => do
+        pure ({ idx := ← fldNat e "idx", type := ← fldStr e "type", gateOk := ← fldBool e "valid" } : GenEvent)
+      pure (MOp.record evs)
+    | x => throw s!"unknown mediator op {x}"
+  let s0 : MState := { types := ← fldStrs j "types", sources := ← fldStrs j "sources", curSource := ← fldStr j "cur" }
+  let (s, verdicts) := ops.foldl (fun (acc : MState × List Json) op =>
+    let r := mstep ig acc.1 op
+    (r.1, acc.2 ++ [perrJson r.2])) (s0, [])
+  let s := mclose s
+  let outJson := s.w.out.map fun it => match it with
+    | .ont _ ts ss => Json.arr #["ont", jStrs ts, jStrs ss]
+    | .event i _ src _ => Json.arr #["event", (i : Json), Json.str src]
+    | .foreign i => Json.arr #["foreign", (i : Json)]
+  let reg : Registry := { typeH := [], srcH := [], reMatch := [], overridden := true, validate := true }
+  let (p, e) := prun reg {} s.w.out
+  let delivered := p.log.filterMap fun c => match c with
+    | .fallback i => some (i : Json)
+    | .handler _ i => some (i : Json)
+    | _ => none
+  pure (Json.mkObj [("verdicts", Json.arr verdicts.toArray), ("out", Json.arr outJson.toArray),
+    ("parseErr", perrJson e), ("delivered", Json.arr delivered.toArray), ("sources", jStrs s.w.sources)])
+
 def dispatch (j : Json) : R Json := do
   match ← fldStr j "op" with
   | "ping" => pure (Json.mkObj [("pong", true)])
@@ -534,6 +563,7 @@ def dispatch (j : Json) : R Json := do
   | "xmlesc" => opXmlEsc j
   | "wstream" => opWStream j
   | "miner" => opMiner j
+  | "mediator" => opMediator j
   | x => throw s!"unknown op {x}"
 
 partial def loop (inp out : IO.FS.Stream) : IO Unit := do
